@@ -43,6 +43,18 @@ CHECKS = {
             "Orbits of documents with more than 3 schemas are covered only through the representative documents; manifests are read through ast (mc/observe.py). "
             "Known order-dependent inputs are listed one by one in known_sets/.",
             "4 C19"),
+    "C01": ("exploration", "bounded exhaustive enumeration of documents (schema graphs, field shapes, operation shapes, layouts) through the real generator; compile + import of every module in a runtime-only interpreter",
+            "Every document of the bounded space (all G(2,1)/G(2,2)/G(3,1) schema graphs, every field shape and reduced pair, every single-parameter / body / response-set "
+            "operation shape, 45 layouts x naming strategies x representative documents) is generated; every emitted file is compiled and every module of package and core is "
+            "imported in a forked interpreter that has only httpx+cattrs, with every __all__ name resolved. Packed documents are bisected so that each case has its own verdict.",
+            "The runtime-only interpreter is validated against a fresh `python -I` process in setup; generation that raises is outside the quantifier; no_postprocess=True.",
+            "4 C01"),
+    "C12": ("exploration", "bounded exhaustive enumeration of generated packages; static scan of every import statement + import under a generator blocker + byte comparison of runtime files",
+            "For every package of the bounded space (layouts x documents, field packs, operation packs, schema graphs - reaching wrapper classes, discriminators, mocks, "
+            "streaming templates) every Import/ImportFrom node at any depth is classified, every module is imported where the generator is not importable, and every core "
+            "runtime module is compared byte for byte with the file shipped in the generator.",
+            "Allowed roots: stdlib of the running interpreter, httpx, cattrs/attrs, typing_extensions, the package, its core, their ancestors.",
+            "4 C12"),
 }
 
 NOT_YET = {}
